@@ -12,6 +12,7 @@ from __future__ import annotations
 import itertools
 from collections import deque
 
+from vf.guard import call as gcall
 from vf.core import Job, new_result
 from vf.snap import clone, freeze
 
@@ -125,13 +126,19 @@ def uf_search(n, max_states=None, unions=None):
         obj = objs.pop(s)
         part = s[1]
         max_depth = max(max_depth, len(hist))
-        obs = _uf_observe(obj, n)
+        try:
+            obs = gcall(lambda: _uf_observe(obj, n), 5.0, 2_000_000)
+        except Exception as ex:  # noqa: BLE001 - includes SolverHang: a read that does not return
+            viol.append((hist, None, f"reading the state raised {type(ex).__name__}: {ex}"))
+            break
         for e in _uf_check_obs(obs, part, n):
             viol.append((hist, None, "state answers differ from reference: " + e))
         for op in ops:
+            if len(viol) > 20:
+                break
             o = clone(obj)
             try:
-                ans = _apply(o, op)
+                ans = gcall(lambda: _apply(o, op), 2.0, 1_000_000)
             except Exception as ex:  # noqa: BLE001
                 viol.append((hist, op, f"raised {type(ex).__name__}: {ex}"))
                 continue
@@ -151,7 +158,11 @@ def uf_search(n, max_states=None, unions=None):
                 if snap_after != s[0]:
                     compress += 1
                     r["outcomes"]["query:rewrote-fields"] += 1
-                    obs2 = _uf_observe(o, n)
+                    try:
+                        obs2 = gcall(lambda: _uf_observe(o, n), 5.0, 2_000_000)
+                    except Exception as ex:  # noqa: BLE001
+                        viol.append((hist, op, f"reading the state after the query raised {type(ex).__name__}: {ex}"))
+                        continue
                     if obs2 != obs:
                         viol.append((hist, op, f"query changed later answers: before {obs} after {obs2}"))
                 else:
@@ -255,13 +266,17 @@ def ft_search(n, init, depth):
         hist = seen[s]
         obj = objs.pop(s)
         ref = s[1]
-        obs = _ft_observe(obj, n)
+        try:
+            obs = gcall(lambda: _ft_observe(obj, n), 5.0, 2_000_000)
+        except Exception as ex:  # noqa: BLE001
+            viol.append((hist, None, f"reading the state raised {type(ex).__name__}: {ex}"))
+            break
         for e in _ft_check(obs, ref, n):
             viol.append((hist, None, e))
         for op in qry:
             o = clone(obj)
             try:
-                _apply(o, op)
+                gcall(lambda: _apply(o, op), 2.0, 1_000_000)
             except Exception as ex:  # noqa: BLE001
                 viol.append((hist, op, f"raised {type(ex).__name__}: {ex}"))
                 continue
@@ -281,9 +296,11 @@ def ft_search(n, init, depth):
         if len(hist) >= depth:
             continue
         for op in upd:
+            if len(viol) > 20:
+                break
             o = clone(obj)
             try:
-                _apply(o, op)
+                gcall(lambda: _apply(o, op), 2.0, 1_000_000)
             except Exception as ex:  # noqa: BLE001
                 viol.append((hist, op, f"raised {type(ex).__name__}: {ex}"))
                 continue
@@ -387,7 +404,7 @@ def jobs(tier, seed):
     ]
 
 
-def replay(v):
+def _replay_inner(v):
     w = v["witness"]
     if v["function"] == "UnionFind":
         from solvor.utils.data_structures import UnionFind
@@ -437,3 +454,12 @@ def replay(v):
     if errs:
         return {"function": "FenwickTree", "kind": "reference_mismatch", "detail": errs[0]}
     return None
+
+
+def replay(v):
+    from vf.guard import SolverHang
+
+    try:
+        return gcall(lambda: _replay_inner(v), 10.0, 5_000_000)
+    except SolverHang as ex:
+        return {"function": v["function"], "kind": "reference_mismatch", "detail": f"the recorded history does not terminate: {ex}"}
